@@ -5,7 +5,8 @@ Protocol for whole command streams (pipeline artefacts and extapi streams):
 
 `streamcheck shram=<bytes> lutbase=<addr> ext=<r>:<size>,… init=<region>:<addr>:<len>:<tid>:<delta>,… infos=<info>;… words=<w>,…`
 
-* block info: `B,ifmTid,y0,x0,c0,shift,ifm2Tid,y0,x0,c0,shift,ofmTid,y0,x0,c0,shift,lutsrc,lutLen,W,<wsrc>…,S,<ssrc>…`
+* block info: `B,<ifm>,<ifm2>,<ofm>,lutsrc,lutLen,W,<wsrc>…,S,<ssrc>…` where each feature-map record is the eight fields
+  `tid,y0,x0,c0,s0,s1,s2,s3` (`s0..s3`: byte offset the operation adds to the base of tile 0..3)
 * dma info:   `D,srcTid,srcDelta,dstTid,dstDelta`
 
 answer: `decode=<ok|error text> | ops=<n> stops=<n> endstop=<0|1> trailing=<n> | bounds=<n> <first messages> | tagged=<n> <first messages>`
@@ -19,8 +20,9 @@ def kv (toks : List String) (key : String) : Option String :=
 def splitNonEmpty (s : String) (sep : String) : List String := (s.splitOn sep).filter (· ≠ "")
 
 def parseFmInfo : List String → Option (Mem.FmInfo × List String)
-  | t :: y :: x :: c :: sh :: rest => do
-    some (⟨← parseNat? t, ← parseNat? y, ← parseNat? x, ← parseNat? c, ← parseInt? sh⟩, rest)
+  | t :: y :: x :: c :: s0 :: s1 :: s2 :: s3 :: rest => do
+    some (⟨← parseNat? t, ← parseNat? y, ← parseNat? x, ← parseNat? c,
+           [← parseInt? s0, ← parseInt? s1, ← parseInt? s2, ← parseInt? s3]⟩, rest)
   | _ => none
 
 def parseInfo (s : String) : Option Mem.Info :=
